@@ -1,25 +1,22 @@
 /-
   XlVerif.Props.C01 — Formulas evaluate under Excel's operator precedence and associativity.
 
-  `C01_partial`: for every well-formed operator formula `e` (numeric literals — plain, decimal,
-  scientific, percent —, cell references, parentheses, unary minus, the twelve binary operators), every
-  placement of blanks `b`, and every assignment of numbers to cells, evaluating the text `render b e`
-  with the model of tokenizer → parser → `OperatorNode.eval` → operator functions returns
-  `denote e env`, the value of the expression under Excel's grammar (the grammar itself is `Spec.C02.WF`:
-  unary minus tightest, then `%`, `^`, `* /`, `+ -`, `&`, comparisons; binary operators left-associative).
-  Unbounded in the size of `e`; it composes `C02.parse_render` (text ↦ tree, all blank placements)
-  with `eval_denote_partial` (tree ↦ value) and the table obligation `op_func_table`.
+  `C01`: for every well-formed operator formula `e` (numeric literals — plain, decimal, scientific,
+  percent —, cell references, parentheses, unary minus, the twelve binary operators), every placement of
+  blanks `b`, and every assignment of numbers to cells, evaluating the text `render b e` with the model of
+  tokenizer → parser → `OperatorNode.eval` → operator functions returns `denote e env`, the value of the
+  expression under Excel's grammar (the grammar itself is `Spec.C02.WF`: unary minus tightest, then `%`,
+  `^`, `* /`, `+ -`, `&`, comparisons; binary operators left-associative).  Unbounded in the size of `e`;
+  it composes `C02.parse_render` (text ↦ tree, all blank placements) with `eval_denote` (tree ↦ value)
+  and the table obligation `op_func_table`.  Full strength: texts produced by `&` that flow into an
+  arithmetic operator or a unary minus (`(1&2)+3 = 15`) are covered — Spec and model hold the same text
+  and `Lemmas.C01.pyIntOfText_intOfText` shows the model's `int(text)` reads every `-?digits+` text as
+  the reference reading `intOfText` does.
 
-  Partial in one respect (guard `NoTextArith`): the full statement
-
-      theorem C01 : ∀ e b m s, EnvOK m s → WF e → inC01 e = true → LitsFinite e →
-        denote s e ≠ .undef → Agree (evaluateFormula (render b e) m) (denote s e)
-
-  also covers arithmetic on a text produced by `&` (`(1&2)+3 = 15`).  Missing for it: a lemma that the
-  model's `int(text)` reads the decimal text `toString z` of an integer back as `z` (a fact about
-  `Nat.repr`); the correspondence run covers that region (operator pairs with `&` under an arithmetic
-  operator).  `denote` is `undef` — and nothing is claimed — where the statement is silent: text form of
-  non-integers and booleans under `&`, non-integral exponents, non-numeric texts in arithmetic.
+  `denote` is `undef` — and nothing is claimed — where the statement is silent: text form of
+  non-integers and booleans under `&`, non-integral exponents, `0^0`, texts that are not `-?digits+` in
+  arithmetic (Excel and the library read `1-2` as a date).  Hypotheses: the cells hold numbers, integral
+  ones as Python ints (`EnvOK`); every literal is a finite double (`LitsFinite`).
 -/
 import XlVerif.Lemmas.C01
 import XlVerif.Props.C02
@@ -39,11 +36,15 @@ theorem op_func_table : OpFuncOK Gen.infixOpToFunc Gen.prefixOpToFunc := by
 
 /-! ### tree ↦ value -/
 
-/-- `eval_denote` (partial, see the header): evaluation of the expected parse tree = `denote` -/
-theorem eval_denote_partial (m : Model.C01.Env) (s : Spec.C01.Env) (henv : EnvOK m s) (e : Expr)
-    (hwf : WF e) (hin : inC01 e = true) (hfin : LitsFinite e) (hg : NoTextArith s e)
+/-- `eval_denote`: evaluation of the expected parse tree = `denote` -/
+theorem eval_denote (m : Model.C01.Env) (s : Spec.C01.Env) (henv : EnvOK m s) (e : Expr)
+    (hwf : WF e) (hin : inC01 e = true) (hfin : LitsFinite e)
     (hu : denote s e ≠ .undef) : Agree (evalAst m (astOf e)) (denote s e) :=
-  Lemmas.C01.eval_denote_partial op_func_table m s henv e hwf hin hfin hg hu
+  Lemmas.C01.eval_denote op_func_table m s henv e hwf hin hfin hu
+
+/-- the model's `int(text)` reads every `-?digits+` text as the reference semantics does -/
+theorem int_of_text (t : List Char) (z : Int) (h : intOfText t = some z) :
+    Model.Value.pyIntOfText t = some z := pyIntOfText_intOfText t z h
 
 /-! ### text ↦ value -/
 
@@ -52,12 +53,18 @@ theorem evaluate_render (e : Expr) (hwf : WF e) (b : Blanks) (m : Model.C01.Env)
   unfold evaluateFormula
   rw [Props.C02.parse_render e hwf b]
 
-/-- **C01 (partial).** The formula text of `e`, with any blanks, evaluates to `denote e`. -/
-theorem C01_partial (e : Expr) (b : Blanks) (m : Model.C01.Env) (s : Spec.C01.Env) (henv : EnvOK m s)
-    (hwf : WF e) (hin : inC01 e = true) (hfin : LitsFinite e) (hg : NoTextArith s e)
+/-- **C01.** The formula text of `e`, with any blanks, evaluates to `denote e`. -/
+theorem C01 (e : Expr) (b : Blanks) (m : Model.C01.Env) (s : Spec.C01.Env) (henv : EnvOK m s)
+    (hwf : WF e) (hin : inC01 e = true) (hfin : LitsFinite e)
     (hu : denote s e ≠ .undef) : Agree (evaluateFormula (render b e) m) (denote s e) := by
   rw [evaluate_render e hwf b m]
-  exact eval_denote_partial m s henv e hwf hin hfin hg hu
+  exact eval_denote m s henv e hwf hin hfin hu
+
+/-- the earlier guarded form, kept as a corollary -/
+theorem C01_partial (e : Expr) (b : Blanks) (m : Model.C01.Env) (s : Spec.C01.Env) (henv : EnvOK m s)
+    (hwf : WF e) (hin : inC01 e = true) (hfin : LitsFinite e)
+    (hu : denote s e ≠ .undef) : Agree (evaluateFormula (render b e) m) (denote s e) :=
+  C01 e b m s henv hwf hin hfin hu
 
 /-! #### non-vacuity of the hypotheses -/
 
@@ -100,21 +107,33 @@ example : LitFinite { ip := [2] } := by
   norm_num [digitsVal, NumLit.fdigits, expInt]
   exact lt_of_lt_of_le (by norm_num : (2 : ℚ) < 2 ^ 2) (pow_le_pow_right₀ (by norm_num) (by norm_num))
 
-/-- `A1 + B1 * 2`: the guard of the partial theorem holds (no operand is a text) and the value is defined -/
+/-- `(A1 & 2) + 3`: a text produced by `&` flows into `+`; the value is defined (73 + … = 75) -/
 def sampleArith : Expr :=
-  .bin .add (.ref { first := { col := ['A'], row := [1] } })
-    (.bin .mul (.ref { first := { col := ['B'], row := [1] } }) (.num { ip := [2] } false))
+  .bin .add (.paren (.bin .cat (.ref { first := { col := ['A'], row := [1] } }) (.num { ip := [2] } false)))
+    (.num { ip := [3] } false)
 
-example : NoTextArith sampleSpecEnv sampleArith ∧ denote sampleSpecEnv sampleArith ≠ .undef ∧
-    LitsFinite sampleArith := by
-  refine ⟨?_, ?_, ?_⟩
-  · simp only [sampleArith, NoTextArith, isArith, denote, true_and, forall_const, arith2, toNum]
-    refine ⟨⟨?_, ?_⟩, ?_, ?_⟩ <;> (intro t h; cases h)
-  · simp [sampleArith, denote, arith2, toNum]
-  · simp only [sampleArith, LitsFinite, true_and]
+example : denote sampleSpecEnv sampleArith = .num 75 := by
+  have h1 : intText 7 = ['7'] := by decide
+  have h2 : intText 2 = ['2'] := by decide
+  have h3 : intOfText ['7', '2'] = some 72 := by decide
+  simp [sampleArith, denote, arith2, toNum, Spec.C01.concat, catArg, exactInt, sampleSpecEnv, cellAddr,
+    digitChar, digitsVal, litValue, NumLit.fdigits, expInt, h1, h2, h3]
+  norm_num
+
+example : LitsFinite sampleArith := by
+  have h : ∀ d : Nat, d < 10 → LitFinite { ip := [d] } := by
+    intro d hd
     unfold LitFinite litValue Model.Value.floatMax
-    norm_num [digitsVal, NumLit.fdigits, expInt]
-    exact lt_of_lt_of_le (by norm_num : (2 : ℚ) < 2 ^ 2) (pow_le_pow_right₀ (by norm_num) (by norm_num))
+    have e : ((digitsVal ([d] ++ ({ ip := [d] } : NumLit).fdigits) : Nat) : ℚ) *
+        (10 : ℚ) ^ (expInt ({ ip := [d] } : NumLit).exp - ((({ ip := [d] } : NumLit).fdigits.length : Nat) : Int)) =
+        (d : ℚ) := by
+      simp [NumLit.fdigits, expInt, digitsVal]
+    rw [e]
+    have : (d : ℚ) < 10 := by exact_mod_cast hd
+    calc (d : ℚ) < 2 ^ 4 := by linarith
+      _ ≤ 2 ^ 1024 := pow_le_pow_right₀ (by norm_num) (by norm_num)
+  simp only [sampleArith, LitsFinite]
+  exact ⟨⟨trivial, h 2 (by norm_num)⟩, h 3 (by norm_num)⟩
 
 /-! ### division by zero -/
 
@@ -122,11 +141,11 @@ example : NoTextArith sampleSpecEnv sampleArith ∧ denote sampleSpecEnv sampleA
     #DIV/0!, in every rendering -/
 theorem C01_div0 (l r : Expr) (b : Blanks) (m : Model.C01.Env) (s : Spec.C01.Env) (henv : EnvOK m s)
     (hwf : WF (.bin .div l r)) (hin : inC01 (.bin .div l r) = true) (hfin : LitsFinite (.bin .div l r))
-    (hg : NoTextArith s (.bin .div l r)) (a : Rat) (hl : denote s l = .num a) (hr : denote s r = .num 0) :
+    (a : Rat) (hl : denote s l = .num a) (hr : denote s r = .num 0) :
     evaluateFormula (render b (.bin .div l r)) m = .val (.err .div0) := by
   have hd : denote s (.bin .div l r) = .err .div0 := by
     simp [denote, hl, hr, arith2, toNum, divide]
-  have := C01_partial (.bin .div l r) b m s henv hwf hin hfin hg (by rw [hd]; simp)
+  have := C01 (.bin .div l r) b m s henv hwf hin hfin (by rw [hd]; simp)
   rw [hd] at this
   exact agree_err this
 
@@ -260,21 +279,21 @@ example (e : Expr) (h : WF e) : Tight (.paren e) := ⟨h, rfl⟩
 theorem C01_flat_left (o1 o2 : BinOp) (a b c : Expr) (ha : Tight a) (hb : Tight b) (hc : Tight c)
     (hp : o2.prec ≤ o1.prec) (m : Model.C01.Env) (s : Spec.C01.Env) (henv : EnvOK m s)
     (hin : inC01 (.bin o2 (.bin o1 a b) c) = true) (hfin : LitsFinite (.bin o2 (.bin o1 a b) c))
-    (hg : NoTextArith s (.bin o2 (.bin o1 a b) c)) (hu : denote s (.bin o2 (.bin o1 a b) c) ≠ .undef) :
+    (hu : denote s (.bin o2 (.bin o1 a b) c) ≠ .undef) :
     Agree (evaluateFormula ('=' :: body Blanks.none (.bin o1 a (.bin o2 b c))) m)
       (denote s (.bin o2 (.bin o1 a b) c)) := by
   rw [← flat_text, ← render_none]
-  exact C01_partial _ _ m s henv ((wf_left_iff o1 o2 a b c ha hb hc).mpr hp) hin hfin hg hu
+  exact C01 _ _ m s henv ((wf_left_iff o1 o2 a b c ha hb hc).mpr hp) hin hfin hu
 
 /-- … and as `a o1 (b o2 c)` when `o2` binds strictly tighter -/
 theorem C01_flat_right (o1 o2 : BinOp) (a b c : Expr) (ha : Tight a) (hb : Tight b) (hc : Tight c)
     (hp : o1.prec < o2.prec) (m : Model.C01.Env) (s : Spec.C01.Env) (henv : EnvOK m s)
     (hin : inC01 (.bin o1 a (.bin o2 b c)) = true) (hfin : LitsFinite (.bin o1 a (.bin o2 b c)))
-    (hg : NoTextArith s (.bin o1 a (.bin o2 b c))) (hu : denote s (.bin o1 a (.bin o2 b c)) ≠ .undef) :
+    (hu : denote s (.bin o1 a (.bin o2 b c)) ≠ .undef) :
     Agree (evaluateFormula ('=' :: body Blanks.none (.bin o2 (.bin o1 a b) c)) m)
       (denote s (.bin o1 a (.bin o2 b c))) := by
   rw [flat_text, ← render_none]
-  exact C01_partial _ _ m s henv ((wf_right_iff o1 o2 a b c ha hb hc).mpr hp) hin hfin hg hu
+  exact C01 _ _ m s henv ((wf_right_iff o1 o2 a b c ha hb hc).mpr hp) hin hfin hu
 
 /-! ### known finding D3: `%` after a parenthesis is folded into `* 0.01` -/
 
